@@ -73,6 +73,44 @@ add("C15", "e_cache", "exploration",
     "Trusts the model and hooks H3/H4. Schedule coverage for the threaded leg is whatever the stress produced (counts in the evidence); TSan/Miri shards are separate (DESIGN §9).",
     "DESIGN.md §6 C15")
 
+add("C11", "e_text", "exploration",
+    "runtime monitoring with a generator-knows-the-answer oracle and a single-fault corpus",
+    "An abstract record list (17 RDATA types, wildcards, optional SOA anywhere) is rendered by the harness's own master-file printer using independently chosen RFC 1035 §5 variants "
+    "($ORIGIN changes, absolute/relative/@ names, inherited owner/TTL/class, both TTL/class orders, parentheses over lines, comments, blank lines, tabs, CRLF, quoted/unquoted/\\X/\\DDD octets, "
+    "labels over every ASCII octet but '.'); Zone::deserialise must return exactly that list after the documented normalisation (lower-casing, SOA-minimum TTL clamp). "
+    "20 kinds of single faults ($INCLUDE, non-IN class in four forms, second SOA, wildcard SOA, owner outside the apex, relative name or @ without origin, first record without TTL, "
+    "bad escapes, unbalanced/nested parentheses, missing RDATA) injected into valid files must be rejected; the shipped config/zones files are a fixed regression corpus.",
+    "Trusts the harness's printer and expectation function. T6: forms ambiguous in the grammar itself are not generated; parentheses only at whitespace-separated token boundaries; TXT/HINFO/WKS/NULL RDATA is the project's single opaque token.",
+    "DESIGN.md §6 C11")
+add("C12", "e_text", "exploration",
+    "runtime monitoring: union oracle over merged zones + reference-model answers + real files through the configuration loader",
+    "1..5 generated zone files for one apex (with/without SOA, overlapping and duplicate records, wildcard sets present in some files only) are merged as the loader merges them; "
+    "records, wildcard records and SOA must be the set-union of the individually parsed parts with exactly one SOA (the last), and every question must be answered as the C02 reference model answers on that union. "
+    "Real-files leg: explicit files plus -Z/-A directories (lexical order different from creation order) through resolved::fs::load_zone_configuration: surviving SOA serial, per-file records, union RRset, hosts last-writer-wins in the non-authoritative root zone.",
+    "Trusts the C02 reference model and the per-file parse (judged by C11). Files sharing an apex are authoritative files for that apex or SOA-less root files, which is what the loader can produce.",
+    "DESIGN.md §6 C12")
+add("C13", "e_text", "exploration",
+    "runtime round-trip monitoring over hostile octets (library and real ztoz binary)",
+    "Zones obtained by parsing generated text whose labels and RDATA names range over every ASCII octet expressible in text (quotes, backslash, ';', parentheses, whitespace and control characters, '@', '*', '$', DEL), "
+    "RDATA octets over all 256 values, authoritative and not, root and non-root apex; and zones built through insert/insert_wildcard from such names. Each: deserialise(serialise(z)) equals z component-wise and by PartialEq, "
+    "and normalising again yields the same lines. A sample goes through the real ztoz binary twice.",
+    "T7: API-built zones are authoritative or root-apex and hold only types the syntax can express. Record order inside a name is HashMap order, so idempotence is judged on the multiset of lines.",
+    "DESIGN.md §6 C13")
+add("C14", "e_text", "exploration",
+    "runtime monitoring with a generator-knows-the-answer oracle (library and real htoh/htoz/ztoh binaries)",
+    "Generated hosts files (IPv4/IPv6 in several textual forms, 1..5 names per line, mixed separators, comments after address / name / whitespace, blank, address-only and %iface lines, conflicting mappings, CRLF) "
+    "must parse to the mapping they denote (last writer wins per name and family); then serialise/deserialise, Zone::from (one A/AAAA per mapping, TTL 5, non-authoritative root), Hosts::try_from and Zone::resolve per mapping. "
+    "11 kinds of malformed mapping lines must be rejected. A sample goes through htoh twice and through ztoh --strict ∘ htoz.",
+    "Trusts the generator's own model of hosts(5). Address-only lines with a malformed address are neither required to be accepted nor rejected (not generated).",
+    "DESIGN.md §6 C14")
+add("C17", "e_text", "exploration",
+    "runtime crash/hang monitoring in a watched subprocess (2 MiB threads, release build)",
+    "Random Unicode, token soup from a dictionary of directives/mnemonics/delimiters/escapes/huge numbers/long labels/NUL/BOM/non-ASCII digits, grammar-aware mutations and random cuts of valid generated zone and hosts files, "
+    "and structured extremes (10^5 parentheses, 1 MiB token, thousands of labels) are fed to Zone::deserialise and Hosts::deserialise; a sample is written to disk (including non-UTF-8 bytes) and loaded through load_zone_configuration. "
+    "Panic = caught per case; abort / stack overflow / hang = seen by the parent process, which re-runs in trace mode to name the input.",
+    "Exploration only. Hang is judged by a 60 s per-input wall limit (>10^4 x the typical cost) inside the worker.",
+    "DESIGN.md §6 C17")
+
 UNDER_CONSTRUCTION = "check not built yet in this revision (see DESIGN.md §6); the technique applies, this is not a claim of inapplicability"
 
 ALL = ["C%02d" % i for i in range(1, 20)]
